@@ -264,15 +264,23 @@ func clientCase(w *hx.W, greeting, suffix string, cuts []int, ci int) {
 	go func() {
 		br := bufio.NewReader(sEnd)
 		sEnd.Write([]byte(greeting))
-		line, err := br.ReadString('\n')
-		if err != nil {
-			peerDone <- "client closed before STARTTLS: " + err.Error()
-			return
-		}
-		f := strings.Fields(line)
-		if len(f) < 2 || strings.ToUpper(f[1]) != "STARTTLS" {
-			// the client may ask CAPABILITY first
-			peerDone <- "unexpected first command " + line
+		var f []string
+		for {
+			line, err := br.ReadString('\n')
+			if err != nil {
+				peerDone <- "client closed before STARTTLS: " + err.Error()
+				return
+			}
+			f = strings.Fields(line)
+			if len(f) >= 2 && strings.ToUpper(f[1]) == "STARTTLS" {
+				break
+			}
+			if len(f) >= 2 && strings.ToUpper(f[1]) == "CAPABILITY" {
+				// the client asks for the capabilities when the greeting had none
+				fmt.Fprintf(sEnd, "* CAPABILITY IMAP4rev1 STARTTLS LOGINDISABLED\r\n%s OK done\r\n", f[0])
+				continue
+			}
+			peerDone <- "unexpected command before STARTTLS: " + line
 			return
 		}
 		stream := []byte(f[0] + " OK Begin TLS negotiation now\r\n" + suffix)
@@ -368,7 +376,8 @@ func clientCase(w *hx.W, greeting, suffix string, cuts []int, ci int) {
 	if caps != nil && caps.Has("XMARKER") {
 		viol("client-adopted-injected-capabilities", fmt.Sprintf("Caps() = %v contains a capability that only appeared in injected plaintext", capList(caps)))
 	}
-	if r.err == nil && state != imap.ConnStateNotAuthenticated {
+	if r.err == nil && state != imap.ConnStateNotAuthenticated && state != imap.ConnStateLogout {
+		// (logout = the connection already failed, e.g. the handshake choked on the injected bytes)
 		viol("client-state-from-injected-data", fmt.Sprintf("state after STARTTLS is %v", state))
 	}
 	if noopErr == nil {
